@@ -60,6 +60,12 @@ M = [
  ('setvalue-after-ignored', 'sampling_method.py', "                found = True\n                opti.set_value(hcat(self.P_control[i]), value)\n        for i, p in enumerate(stage.parameters['control+']):\n            if is_equal(parameter, p):\n                found = True\n                opti.set_value(hcat(self.P_control_plus[i]), value)\n        for p in stage.parameters['bspline']:\n            if is_equal(parameter, p):\n                found = True\n                opti.set_value(self.signals[p].coeff, value)\n        assert found", "                found = True\n        for i, p in enumerate(stage.parameters['control+']):\n            if is_equal(parameter, p):\n                found = True\n                opti.set_value(hcat(self.P_control_plus[i]), value)\n        for p in stage.parameters['bspline']:\n            if is_equal(parameter, p):\n                found = True\n                opti.set_value(self.signals[p].coeff, value)\n        assert found", ['C09']),
  ('setparam-columns-reversed', 'sampling_method.py', "            opti.set_value(hcat(self.P_control[i]), stage._param_value(p))", "            opti.set_value(hcat(self.P_control[i][::-1]), stage._param_value(p))", ['C09']),
  ('param-value-stale', 'stage.py', "                self._method.set_value(self, self.master._method, parameter, value)      ", "                self._method.set_value(self, self.master._method, parameter, value) if not is_equal(parameter, self.parameters[''][0]) else None", ['C09']),
+ # --- C13
+ ('setT-no-invalidate', 'stage.py', "    def set_T(self, T):\n        self._set_transcribed(False)\n", "    def set_T(self, T):\n", ['C13']),
+ ('clear-constraints-no-invalidate', 'stage.py', '        self._set_transcribed(False)\n        self._constraints = defaultdict(list)', '        self._constraints = defaultdict(list)', ['C13']),
+ ('add-objective-no-invalidate', 'stage.py', '        self._set_transcribed(False)\n        self._objective = self._objective + term', '        self._objective = self._objective + term', ['C13']),
+ ('method-inherit-solver', 'direct_method.py', "        if template and template._solver_options is not None:\n            self._solver_options = template._solver_options", "        if template and template._solver_options is not None:\n            self._solver_options = {}", ['C13']),
+ ('set-initial-not-reapplied', 'stage.py', "            self._method.set_initial(self._augmented, self.master._method, self._initial)", "            pass", ['C13']),
 ]
 
 def main():
